@@ -3,6 +3,9 @@ import Spine.FeatureMore
 import Spine.LocalTreeThm
 import Spine.LocalTreeMore
 import Spine.LocalTreeSpec
+import Spine.LocalTreeNote
+import Spine.LocalTreeRead
+import Spine.LocalTreeReadThm
 /-!
 # C07 — the local device tree is announced faithfully and addressed uniquely
 
@@ -48,7 +51,8 @@ The announced CONTENTS are modelled as well: device description and destination 
 `c07_destination_list_function_announced`), supported functions with read / write / partial flags as
 `Operations.Information` derives them (`c07_supported_functions`; the partial-write capability of a function on a
 feature type comes from the regenerated factory table `Spine.Generated.Functions`, supplied by the driver).
-Not modelled: reads overlapping feature or function additions (C17's subject).
+Reads overlapping feature / function / description additions: modelled as events (second wave, section "Clause 1 for a
+read that overlaps additions" below; `Spine/LocalTreeRead.lean`).
 Deepening round (audit table: `design/audit-C07.md`): "never reused" is now a theorem over histories of the tree model
 incl. entities removed from the device and added again (`c07_numbers_never_reused_history`) and over every schedule of
 the event model incl. numbers burnt by NextFeatureId (`c07_numbers_never_reused`); "one and the same feature" is stated
@@ -94,6 +98,124 @@ example : validFrom (init {}) exOps ∧ replyEnts (run {} exOps) = [(0, 0), (2, 
 
 example : (heldRead (run {} exOps) 1 (.detach 2)).2 =
     [.reply 1 {} [(0, 0), (2, 2), (1, 1)] (replyFeats (run {} exOps)), .notify 0 false 2 2 []] := by decide
+
+/-! ## Clause 1 for a read that overlaps additions: the read as events (second deepening wave)
+
+`processReadDetailedDiscoveryData` is not one critical section: it takes the entity list, then per entity the feature
+list, then per feature the operations map and the description, each under its own lock (`Spine/LocalTreeRead.lean`:
+events `ent`, `ops`, `descr` performed by `tick` in the fixed order of the walk; `Ev.app o` is an application call that
+happens in between). -/
+
+/-- A read that nothing overlaps — the events of the walk, all on one state — IS the atomic read of the tree model:
+    it ends (after at most `measure` events) and sends exactly the reply of `step s (.read p)`, i.e. the reply
+    `c07_reply_faithful` / `c07_refines` talk about. -/
+theorem c07_read_events_refine_atomic_read (s : St) (h : Inv s) (p : Nat) :
+    (tickN s (LTree.measure s (rbegin s p)) (rbegin s p)).done = true ∧
+    ∀ n, (tickN s n (rbegin s p)).done = true → [(tickN s n (rbegin s p)).reply s] = (step s (.read p)).2 :=
+  ⟨done_after_measure s _ _ (Nat.le_refl _), fun n hd => read_alone s h p n hd⟩
+
+/-- a tree with two entities and a feature each, used below -/
+def exTwo : St := run {} [.renew 1 1, .feat 1 0 1, .addFn 1 1 0 true true true, .renew 2 2, .feat 2 1 1, .attach 1, .attach 2]
+
+example : Inv exTwo ∧ LTree.measure exTwo (rbegin exTwo 1) = 11 ∧
+    (tickN exTwo 11 (rbegin exTwo 1)).reply exTwo = .reply 1 {} (replyEnts exTwo) (replyFeats exTwo) ∧
+    (tickN exTwo 10 (rbegin exTwo 1)).done = false := ⟨inv_run {} _, by decide, by decide, by decide⟩
+
+/-- "At every moment", for a read that ONE application call overlaps (GetOrAddFeature, NextFeatureId, AddFunctionType,
+    SetDescriptionString, AddEntity, RemoveEntity, a subscription …; any call but a fresh object for a slot), wherever
+    in the walk the call falls (a events of the read before it, b after it, for all a and b): the reply is a linearisable
+    snapshot — exactly the atomic reply of the tree BEFORE the call or exactly that of the tree AFTER it, never a
+    mixture; the call's own observations (returned number, notifications) are those of `step`. Domain: distinct entity
+    addresses in the device. -/
+theorem c07_overlapped_read_one_call (s : St) (h : Inv s) (hn : s.attached.Nodup) (o : Op) (hr : ∀ k et, o ≠ .renew k et)
+    (p a b : Nat) :
+    let x := runRead s p (List.replicate a .tick ++ [.app o] ++ List.replicate b .tick)
+    x.1 = (step s o).1 ∧ x.2.2 = (step s o).2 ∧
+    (x.2.1.done = true →
+      x.2.1.reply x.1 = .reply p s.dev (replyEnts s) (replyFeats s) ∨
+      x.2.1.reply x.1 = .reply p s.dev (replyEnts (step s o).1) (replyFeats (step s o).1)) := by
+  simp only [runRead_one]
+  refine ⟨trivial, trivial, ?_⟩
+  intro hd
+  have hp : (tickN (step s o).1 b (tickN s a (rbegin s p))).peer = p := by rw [peer_tickN, peer_tickN]; rfl
+  rcases one_overlap s h hn o hr p a b hd with e | e
+  · left
+    simp only [Rd.reply, hp, dev_step, Obs.reply.injEq, true_and]
+    exact ⟨congrArg Prod.fst e, congrArg Prod.snd e⟩
+  · right
+    simp only [Rd.reply, hp, dev_step, Obs.reply.injEq, true_and]
+    exact ⟨congrArg Prod.fst e, congrArg Prod.snd e⟩
+
+/-- non-vacuity: the read of `exTwo` has rendered entity [0] and taken the feature list of entity 1 (a = 6 events) when feature (2, 3) is added
+    to entity 2 — the reply shows it (the tree after); added to entity 1 instead, the reply does not (the tree before) -/
+example : exTwo.attached.Nodup ∧
+    (let x := runRead exTwo 1 (List.replicate 6 .tick ++ [.app (.feat 2 3 1)] ++ List.replicate 7 .tick)
+     x.2.1.done = true ∧ x.2.1.outF = replyFeats (step exTwo (.feat 2 3 1)).1 ∧ x.2.1.outF ≠ replyFeats exTwo) ∧
+    (let x := runRead exTwo 1 (List.replicate 6 .tick ++ [.app (.feat 1 2 1)] ++ List.replicate 5 .tick)
+     x.2.1.done = true ∧ x.2.1.outF = replyFeats exTwo ∧ x.2.1.outF ≠ replyFeats (step exTwo (.feat 1 2 1)).1) := by
+  decide
+
+/-- With TWO overlapping calls the clause fails for the code as it is, and this is NOT repaired (observation, not a
+    finding: the read is not one critical section by design, features are meant to be added before AddEntity): the
+    read has taken the feature list of entity 1, then entity 1 gets feature 2 and after that entity 2 gets feature 2; the reply lists
+    the later addition and not the earlier one — the tree of no moment of this history. The harness reproduces this
+    schedule on the real code (gate in the entity's `Information()`) and finds the same reply. -/
+theorem c07_overlapped_read_not_atomic_refuted :
+    let evs := List.replicate 6 Ev.tick ++ [.app (.feat 1 2 1), .app (.feat 2 3 1)] ++ List.replicate 7 .tick
+    let x := runRead exTwo 1 evs
+    let s1 := (step exTwo (.feat 1 2 1)).1
+    x.2.1.done = true ∧ replyFeats x.1 = replyFeats (step s1 (.feat 2 3 1)).1 ∧
+    x.2.1.outF ≠ replyFeats exTwo ∧ x.2.1.outF ≠ replyFeats s1 ∧ x.2.1.outF ≠ replyFeats x.1 ∧
+    (2, ⟨2, 3, 1, descrOf 3 1, []⟩) ∈ x.2.1.outF ∧ (1, ⟨2, 2, 1, descrOf 2 1, []⟩) ∉ x.2.1.outF := by
+  decide
+
+/-- What holds for ANY schedule — any number of overlapping calls at any points of the walk (a fresh object for a slot
+    excepted): the entity list of the reply is exactly the entity list, with the entity types, of the moment the read
+    started (AddEntity / RemoveEntity during the read do not show, whatever else happens). The feature part of such a
+    reply: `c07_overlapped_read_sandwich`. -/
+theorem c07_overlapped_read_entities (s : St) (p : Nat) (evs : List Ev) (he : ∀ e ∈ evs, noRenewEv e)
+    (hd : (runRead s p evs).2.1.done = true) :
+    (runRead s p evs).2.1.outE = replyEnts s ∧ (runRead s p evs).2.1.peer = p := by
+  refine ⟨overlapped_entities s p evs he hd, ?_⟩
+  have : ∀ (evs : List Ev) (x : St × Rd × List Obs), (evs.foldl evStep x).2.1.peer = x.2.1.peer := by
+    intro evs
+    induction evs with
+    | nil => intro x; rfl
+    | cons e es ih =>
+      intro x
+      rw [List.foldl_cons, ih]
+      cases e with
+      | tick => exact peer_tick _ _
+      | app o => rfl
+  exact this evs _
+
+example : (let x := runRead exTwo 1 ([.tick, .app (.detach 2), .tick, .app (.attach 4), .app (.feat 1 2 1)] ++ List.replicate 12 .tick)
+    x.2.1.done = true ∧ x.2.1.outE = [(0, 0), (1, 1), (2, 2)] ∧ x.1.attached = [0, 1, 4]) := by decide
+
+/-- … and the feature part, for ANY schedule with any number of overlapping calls: the reply lies between the tree at
+    the START of the read and the tree at its END, feature by feature. Every feature entry of the reply is a feature
+    the tree has at the end — that number in that entity, that type and role — and lists only functions that feature
+    has by then, with the operations of their first addition (the entry's function list is an initial part of the
+    feature's: functions are only appended and keep their flags); and every feature the tree had when the read
+    started, in an entity of the start's list, has an entry, with its type and role and at least the functions it had
+    then. (The description of an entry is the one the feature carried at the moment its `descr` event ran; between
+    start and end it may have been set several times — judged by the harness's monitor only.) This is exactly what the
+    model-free monitor of the harness judges on the real replies (`overlapped-read-*`). -/
+theorem c07_overlapped_read_sandwich (s : St) (h : Inv s) (p : Nat) (evs : List Ev) (he : ∀ e ∈ evs, noRenewEv e)
+    (hd : (runRead s p evs).2.1.done = true) :
+    (∀ k e, (k, e) ∈ (runRead s p evs).2.1.outF →
+      ∃ g ∈ ((runRead s p evs).1.pool k).feats, g.id = e.id ∧ g.typ = e.typ ∧ g.role = e.role ∧ e.fns <+: g.fns) ∧
+    (∀ k ∈ s.attached, ∀ f0 ∈ (s.pool k).feats,
+      ∃ e, (k, e) ∈ (runRead s p evs).2.1.outF ∧ e.id = f0.id ∧ e.typ = f0.typ ∧ e.role = f0.role ∧ f0.fns <+: e.fns) :=
+  sandwich s h p evs he hd
+
+/-- non-vacuity: three overlapping calls; the reply has feature (1,1) with the function it had at the start but not the
+    one added after it was rendered, and (2,1) with the function added before it was rendered -/
+example : (let x := runRead exTwo 1 (List.replicate 8 .tick ++
+      [.app (.addFn 1 1 1 true false false), .app (.addFn 2 1 2 true true false), .app (.feat 1 2 1)] ++ List.replicate 3 .tick)
+    x.2.1.done = true ∧ x.2.1.outF.drop 2 = [(1, ⟨1, 0, 1, 2, [⟨0, true, true, true⟩]⟩), (2, ⟨1, 1, 1, 5, [⟨2, true, true, false⟩]⟩)] ∧
+    (replyFeats x.1).drop 2 = [(1, ⟨1, 0, 1, 2, [⟨0, true, true, true⟩, ⟨1, true, false, false⟩]⟩), (1, ⟨2, 2, 1, 8, []⟩),
+      (2, ⟨1, 1, 1, 5, [⟨2, true, true, false⟩]⟩)]) := by decide
 
 /-! ## Clause 1 as one statement over histories: the reply equals the SPEC of the history -/
 
@@ -360,6 +482,57 @@ def exNotif : List Op :=
 example : recvNotes 0 (init {}) exNotif =
       [.notify 0 true 1 1 [⟨1, 0, 1, 2, []⟩], .notify 0 false 1 1 [], .notify 0 false 2 2 []] ∧
     expCount 0 false exNotif = 3 ∧ recvNotes 1 (init {}) exNotif = [] := by decide
+
+/-- Clause 2, the CONTENT of the notifications against the SPEC (second wave; before: an argument in the doc comment of
+    `c07_notifications_history`). Over ANY history, the partial notifications peer p received, read as maps (`noteDecl`:
+    added / removed, slot, entity type, feature number ↦ type, role, description, operations per function), are exactly
+    `specNotes`: the list computed from the SPEC maps alone — `specStep` folded over the calls and the numbers they
+    returned, subscribed = between p's subscription and unsubscription call — one entry per AddEntity performed while p
+    was subscribed, carrying the DECLARED entity type and the DECLARED features of that slot at that moment, and one
+    per RemoveEntity, carrying no feature. The reading loses nothing: the number of entries is the number of
+    notifications received, every notification is addressed to p, its feature numbers are pairwise distinct and each
+    of its features names every function once. -/
+theorem c07_notification_content (cfg : DevCfg) (ops : List Op) (p : Nat) :
+    (recvNotes p (init cfg) ops).filterMap noteDecl = specNotes p (init cfg) (LTree.abs (init cfg)) false ops ∧
+    ((recvNotes p (init cfg) ops).filterMap noteDecl).length = (recvNotes p (init cfg) ops).length ∧
+    ∀ q a k et fs, Obs.notify q a k et fs ∈ recvNotes p (init cfg) ops →
+      q = p ∧ (fs.map (·.id)).Nodup ∧ ∀ f ∈ fs, (f.fns.map (·.fn)).Nodup := by
+  have h := recv_eq_exp p ops (init cfg) (inv_init cfg)
+  have h0 : decide (p ∈ (init cfg).subs) = false := by simp [init]
+  rw [h0] at h
+  have hc := exp_eq_spec p ops (init cfg) false (inv_init cfg)
+  refine ⟨by rw [h]; exact hc, ?_, ?_⟩
+  · rw [h, hc, specNotes_length, expNotes_length]
+  · intro q a k et fs hm
+    rw [h] at hm
+    exact exp_wellformed p ops (init cfg) false (inv_init cfg) q a k et fs hm
+
+/-- … and per step, at any point of any history: AddEntity of slot k while p is subscribed sends p exactly one
+    notification; it announces the entity type the application declared for the object in that slot and a feature list
+    that, read as a map from feature numbers, IS the SPEC's feature map of that slot at that moment (`specOf` of the
+    prefix); RemoveEntity announces the declared entity type and no feature. -/
+theorem c07_entity_notification_content (cfg : DevCfg) (pre : List Op) (k p : Nat) (hp : p ∈ (run cfg pre).subs) :
+    (∃ fs, (step (run cfg pre) (.attach k)).2.filter (discTo p) = [.notify p true k ((specOf cfg pre).etype k) fs] ∧
+      featsMap fs = (specOf cfg pre).feat k ∧ (fs.map (·.id)).Nodup) ∧
+    (step (run cfg pre) (.detach k)).2.filter (discTo p) = [.notify p false k ((specOf cfg pre).etype k) []] := by
+  have hi := inv_run cfg pre
+  refine ⟨⟨((run cfg pre).pool k).feats, ?_, ?_, ((hi.1 k).1.1)⟩, ?_⟩
+  · rw [c07_entity_added_notification _ hi k p, if_pos hp, ← abs_run cfg pre]; rfl
+  · rw [← abs_run cfg pre]; rfl
+  · rw [c07_entity_removed_notification _ hi k p, if_pos hp, ← abs_run cfg pre]; rfl
+
+/-- non-vacuity: the notifications of `exNotif` for peer 0 as maps — entity 1 added with feature 1 = LoadControl(0) /
+    server / "LoadControl Server" without functions and no feature 2, removed, entity 2 removed; and a history in which
+    a function is added, re-added with other flags and a description set before the entity is added -/
+example : ((recvNotes 0 (init {}) exNotif).filterMap noteDecl).map
+      (fun n => (n.added, n.slot, n.etype, (n.feat 1).map fun d => (d.typ, d.role, d.descr, d.ops 0), (n.feat 2).isSome)) =
+    [(true, 1, 1, some (0, 1, 2, none), false), (false, 1, 1, none, false), (false, 2, 2, none, false)] := by rfl
+example : ((specNotes 0 (init {}) (LTree.abs (init {})) false
+      [.sub 0, .renew 1 3, .feat 1 0 1, .addFn 1 1 0 true true true, .addFn 1 1 0 false false false, .setDescr 1 1 77,
+       .feat 1 2 0, .attach 1]).map
+      (fun n => (n.added, n.slot, n.etype, (n.feat 1).map fun d => (d.typ, d.role, d.descr, d.ops 0),
+        (n.feat 2).map fun d => (d.typ, d.role), (n.feat 3).isSome))) =
+    [(true, 1, 3, some (0, 1, 77, some (true, true, true)), some (2, 0), false)] := by rfl
 
 /-- Clause 2 under FAILING peers (`notify_independent_of_other_failures`): when the connections of some peers cannot
     be written to (their sends return an error), what every healthy peer receives from any step — partial
